@@ -106,6 +106,29 @@ Proof. exact (FlvPack.flv_audio_dec_total bs x). Qed.
 Theorem flv_video_dec_total bs x : wf_bytes bs -> video_dec bs <> Panic x.
 Proof. exact (FlvPack.flv_video_dec_total bs x). Qed.
 
+(* Histories on one AudioPackager / VideoPackager ([prun]: Encode and Decode calls in any
+   order and mix of codecs, state passed along; the Go structs are empty): every result is a
+   function of its own call, and the results of earlier calls are unaffected by later calls.
+   Trivial in the model, where values are persistent -- the end-of-history correspondence run
+   (all returned tags and frames kept, inputs mutated after the call, compared only after the
+   last call) is what shows the implementation does not alias or reuse result storage. *)
+Theorem c10_history_pointwise st ops : prun st ops = map (fun o => snd (pstep tt o)) ops.
+Proof. exact (prun_map st ops). Qed.
+
+Theorem c10_history_unaffected st ops later :
+  firstn (length ops) (prun st (ops ++ later)) = prun st ops.
+Proof. exact (prun_prefix st ops later). Qed.
+
+(* The sharing Decode has today, stated exactly: the decoded Raw is the tail of the tag given
+   to Decode (the Go code returns a sub-slice); what precedes it is [prefix_before].  A caller
+   flipping the decoded Raw can therefore reach at most that tail of its own tag buffer. *)
+Theorem c10_decode_raw_is_tail_audio b f :
+  audio_dec b = Ok f -> b = prefix_before b (a_raw f) ++ a_raw f.
+Proof. exact (audio_dec_raw_suffix b f). Qed.
+Theorem c10_decode_raw_is_tail_video b f :
+  video_dec b = Ok f -> b = prefix_before b (v_raw f) ++ v_raw f.
+Proof. exact (video_dec_raw_suffix b f). Qed.
+
 (* non-vacuity and regression witnesses *)
 Example c10_audio_rt_example :
   let f := mk_aframe aOpus 24 1 1 14 513 [7; 8] in
@@ -136,6 +159,10 @@ Print Assumptions c10_first_byte_audio.
 Print Assumptions c10_first_byte_video.
 Print Assumptions c10_canonical_reenc_audio.
 Print Assumptions c10_canonical_reenc_video.
+Print Assumptions c10_history_pointwise.
+Print Assumptions c10_history_unaffected.
+Print Assumptions c10_decode_raw_is_tail_audio.
+Print Assumptions c10_decode_raw_is_tail_video.
 Print Assumptions c10_rates.
 Print Assumptions c10_helpers_total.
 Print Assumptions flv_audio_dec_total.
